@@ -469,6 +469,45 @@ def r18_6(ctx):
             ctx.bad("R18.6", acc.module, acc.qual, norm(src, 70) if src is not None else norm(c, 70), "the address a new connection is filed under is not the host part of the transport's `peername`: the per-address throttle counts all clients together (or none)", c.lineno)
 
 
+def r18_7(ctx):
+    """The password file is re-read when it changes (R18.5).  What was read replaces what is cached - for every user name
+    in the file, not only for names that were not cached yet: otherwise a changed password (or an account disabled with an
+    unusable hash) keeps authenticating with the old hash until the server is restarted.  Every record read is stored into
+    USERS unconditionally (`USERS[name] = <record read>` for each name read, or `USERS.update(<records read>)`)."""
+    from .common import pm_of
+
+    p = ctx.p
+    fi = p.func("auth.read_users_from_file")
+    ctx.analysed(fi)
+    pm = pm_of(p, fi)
+    shapes = [
+        "for username in users:\n    USERS[username] = users[username]",
+        "for username in users.keys():\n    USERS[username] = users[username]",
+        "for username, user in users.items():\n    USERS[username] = user",
+        "for username, user in users.items():\n    USERS[username] = users[username]",
+        "USERS.update(users)",
+    ]
+    # `for k, _v in d.items(): USERS[k] = d[k]` is read by the normal forms as a loop over d.items() whose value is unused
+    if any(pm.has(x) for x in shapes):
+        ctx.ok("R18.7", where(fi), "every record read from the password file replaces the cached one")
+        return
+    # structural fallback: a store USERS[<loop var>] = ... in a loop over the records read, under no test
+    par = parmap(fi)
+    for st in body_walk(fi.node):
+        if isinstance(st, ast.Assign) and len(st.targets) == 1 and isinstance(st.targets[0], ast.Subscript) and norm(st.targets[0].value) == "USERS":
+            cur, loops, tests = st, [], []
+            while cur in par:
+                cur = par[cur]
+                if isinstance(cur, (ast.For, ast.AsyncFor)):
+                    loops.append(cur)
+                if isinstance(cur, ast.If):
+                    tests.append(cur)
+            if loops and not tests and not any(isinstance(x, ast.BinOp) and isinstance(x.op, ast.Sub) for l in loops for x in ast.walk(l.iter)):
+                ctx.ok("R18.7", where(fi), f"{norm(st, 60)} for every record read")
+                return
+    ctx.bad("R18.7", fi.module, fi.qual, "for username in users: USERS[username] = users[username]", "a reload of the password file no longer replaces the cached record of a user name that is already cached: after a password change (or the account being disabled) the old password keeps authenticating, the new one is refused, until the server restarts", fi.node.lineno)
+
+
 def run(ctx):
     ctx.do(r18_1)
     ctx.do(r18_2)
@@ -476,6 +515,7 @@ def run(ctx):
     ctx.do(r18_4)
     ctx.do(r18_5)
     ctx.do(r18_6)
+    ctx.do(r18_7)
     ctx.trust("frozen pre-auth handler set: " + ", ".join(sorted(PREAUTH_ALLOWED)))
     for k, v in STATE_WRITERS.items():
         ctx.trust(f"frozen state writer: {k} - {v}")
